@@ -113,6 +113,13 @@ class World:
                 return [(vpath(p if p.startswith("/REAL") else "/REAL" + p), st)]
             if name in ("absolute", "expanduser"):
                 return [(recv, st)]
+            if name in ("with_suffix", "with_name", "with_stem") and len(args) == 1 and isinstance(args[0], str):
+                import pathlib as _pl
+
+                try:
+                    return [(vpath(str(getattr(_pl.PurePosixPath(p), name)(args[0]))), st)]
+                except ValueError as e:
+                    return [(Raised("ValueError", node, str(e)), st)]
             if name == "stat":
                 return [(Opaque("vstat", p), st)]
             st.note(f"virtual path method {name}")
